@@ -377,3 +377,562 @@ Proof.
     + eexists. exact (col_rel_trans _ _ _ _ _ _ _ _ _ He (neg_cols_rel m n (0 + c) st1)).
     + exists e. exact He.
 Qed.
+
+(* ---------- shell sort: every insertion is a joint permutation of the columns ---------- *)
+Lemma copy_col_spec {X : Type} rows (A : @Mx X) dst (src : nat -> X) i j :
+  copy_col rows A dst src i j = if ((i <? rows)%nat && Nat.eqb j dst)%bool then src i else A i j.
+Proof. unfold copy_col. apply fill_col_spec. Qed.
+
+(* column k of st is column (tau k) of st0 *)
+Definition col_agree (m n : nat) (st0 st : @svd_st R) (tau : nat -> nat) (k : nat) : Prop :=
+  sw st k = sw st0 (tau k) /\
+  (forall r, (r < m)%nat -> sU st r k = sU st0 r (tau k)) /\
+  (forall r, (r < n)%nat -> sV st r k = sV st0 r (tau k)).
+Definition inj_on (n : nat) (tau : nat -> nat) : Prop :=
+  (forall j, (j < n)%nat -> (tau j < n)%nat) /\
+  (forall a b, (a < n)%nat -> (b < n)%nat -> tau a = tau b -> a = b).
+
+Lemma shell_shift_S fuel m n inc swv j (st : @svd_st R) :
+  shell_shift ROps (S fuel) m n inc swv j st =
+  if Rltb (sw st (j - inc)%nat) swv then
+    let st1 := mkSVD (copy_col m (sU st) j (fun k => sU st k (j - inc)%nat))
+                     (copy_col n (sV st) j (fun k => sV st k (j - inc)%nat))
+                     (updv (sw st) j (sw st (j - inc)%nat)) (srv1 st) in
+    if (j - inc <? inc)%nat then ((j - inc)%nat, st1) else shell_shift ROps fuel m n inc swv (j - inc)%nat st1
+  else (j, st).
+Proof. reflexivity. Qed.
+
+(* moving column j1 into the hole j: the hole moves to j1 *)
+Lemma shift_step_agree m n i (st0 st : @svd_st R) tau j j1 :
+  (i < n)%nat -> (j <= i)%nat -> (j1 <= j)%nat ->
+  inj_on n tau -> tau j = i ->
+  (forall k, (k < n)%nat -> k <> j -> col_agree m n st0 st tau k) ->
+  let st1 := mkSVD (copy_col m (sU st) j (fun k => sU st k j1))
+                   (copy_col n (sV st) j (fun k => sV st k j1))
+                   (updv (sw st) j (sw st j1)) (srv1 st) in
+  let tau1 := fun k => if Nat.eqb k j1 then i else if Nat.eqb k j then tau j1 else tau k in
+  inj_on n tau1 /\ tau1 j1 = i /\
+  (forall k, (k < n)%nat -> k <> j1 -> col_agree m n st0 st1 tau1 k).
+Proof.
+  intros Hi Hj Hj1 [Hr Hinj] Htj Hag st1 tau1.
+  assert (Hj1n : (j1 < n)%nat) by lia. assert (Hjn : (j < n)%nat) by lia.
+  split; [split|split].
+  - intros k Hk. unfold tau1. destruct (Nat.eqb k j1); [exact Hi|]. destruct (Nat.eqb k j); auto.
+  - intros a b Ha Hb. unfold tau1.
+    destruct (Nat.eqb_spec a j1) as [->|Ha1]; destruct (Nat.eqb_spec b j1) as [->|Hb1]; try (intros; reflexivity).
+    + destruct (Nat.eqb_spec b j) as [->|Hb2]; intros H; rewrite <- Htj in H; apply Hinj in H; try assumption; congruence.
+    + destruct (Nat.eqb_spec a j) as [->|Ha2]; intros H; rewrite <- Htj in H; apply Hinj in H; try assumption; congruence.
+    + destruct (Nat.eqb_spec a j) as [->|Ha2]; destruct (Nat.eqb_spec b j) as [->|Hb2]; intros H;
+        try reflexivity; apply Hinj in H; try assumption; congruence.
+  - unfold tau1. rewrite Nat.eqb_refl. reflexivity.
+  - intros k Hk Hk1.
+    assert (Ht : tau1 k = if Nat.eqb k j then tau j1 else tau k)
+      by (unfold tau1; destruct (Nat.eqb_spec k j1); [contradiction|reflexivity]).
+    unfold col_agree. rewrite Ht. clear Ht.
+    destruct (Nat.eqb_spec k j) as [->|Hkj].
+    + assert (Hne : j1 <> j) by congruence.
+      destruct (Hag j1 Hj1n Hne) as (Hw & HU & HV).
+      unfold col_agree, st1. cbn [sU sV sw]. split; [|split].
+      * rewrite updv_same. exact Hw.
+      * intros r Hrm. rewrite copy_col_spec, (proj2 (Nat.ltb_lt _ _) Hrm), Nat.eqb_refl. cbn [andb]. auto.
+      * intros r Hrm. rewrite copy_col_spec, (proj2 (Nat.ltb_lt _ _) Hrm), Nat.eqb_refl. cbn [andb]. auto.
+    + destruct (Hag k Hk Hkj) as (Hw & HU & HV).
+      unfold col_agree, st1. cbn [sU sV sw]. split; [|split].
+      * rewrite updv_other by congruence. exact Hw.
+      * intros r Hrm. rewrite copy_col_spec. destruct (Nat.eqb_spec k j); [contradiction|].
+        rewrite andb_false_r. auto.
+      * intros r Hrm. rewrite copy_col_spec. destruct (Nat.eqb_spec k j); [contradiction|].
+        rewrite andb_false_r. auto.
+Qed.
+
+Lemma shell_shift_agree m n inc swv i (st0 : @svd_st R) :
+  (i < n)%nat ->
+  forall fuel tau j st,
+    (j <= i)%nat -> inj_on n tau -> tau j = i ->
+    (forall k, (k < n)%nat -> k <> j -> col_agree m n st0 st tau k) ->
+    exists tau', (fst (shell_shift ROps fuel m n inc swv j st) <= i)%nat /\ inj_on n tau' /\
+      tau' (fst (shell_shift ROps fuel m n inc swv j st)) = i /\
+      (forall k, (k < n)%nat -> k <> fst (shell_shift ROps fuel m n inc swv j st) ->
+         col_agree m n st0 (snd (shell_shift ROps fuel m n inc swv j st)) tau' k).
+Proof.
+  intros Hi. induction fuel as [|f IH]; intros tau j st Hj Hinj Htj Hag.
+  - cbn [shell_shift fst snd]. exists tau. auto.
+  - rewrite shell_shift_S. destruct (Rltb _ _).
+    2:{ cbn [fst snd]. exists tau. auto. }
+    cbv zeta.
+    destruct (shift_step_agree m n i st0 st tau j (j - inc) Hi Hj ltac:(lia) Hinj Htj Hag) as (Hinj1 & Ht1 & Hag1).
+    destruct (j - inc <? inc)%nat.
+    + cbn [fst snd]. eexists. split; [lia|]. split; [exact Hinj1|]. split; [exact Ht1|exact Hag1].
+    + apply (IH _ (j - inc)%nat _ ltac:(lia) Hinj1 Ht1 Hag1).
+Qed.
+
+Lemma shell_insert_eq m n inc i (st : @svd_st R) :
+  shell_insert ROps m n inc i st =
+  let r := shell_shift ROps (S i) m n inc (sw st i) i st in
+  mkSVD (copy_col m (sU (snd r)) (fst r) (fun k => sU st k i))
+        (copy_col n (sV (snd r)) (fst r) (fun k => sV st k i))
+        (updv (sw (snd r)) (fst r) (sw st i)) (srv1 (snd r)).
+Proof. unfold shell_insert. cbv zeta. destruct (shell_shift _ _ _ _ _ _ _ _) as [j st1]. reflexivity. Qed.
+
+Lemma shell_insert_rel m n inc i (st : @svd_st R) :
+  (i < n)%nat -> exists sigma, col_rel m n st (shell_insert ROps m n inc i st) sigma (fun _ => 1).
+Proof.
+  intros Hi. rewrite shell_insert_eq. cbv zeta.
+  destruct (shell_shift_agree m n inc (sw st i) i st Hi (S i) (fun k => k) i st (le_n _))
+    as (tau & Hj & [Hr Hinj] & Htj & Hag).
+  { split; auto. }
+  { reflexivity. }
+  { intros k _ _. unfold col_agree. auto. }
+  set (r := shell_shift ROps (S i) m n inc (sw st i) i st) in *.
+  exists tau. unfold col_rel. cbn [sU sV sw].
+  split; [exact Hr|]. split; [exact Hinj|]. split; [intros; left; reflexivity|].
+  split; [|split].
+  - intros k Hk. destruct (Nat.eq_dec k (fst r)) as [->|Hne].
+    + rewrite updv_same, Htj. reflexivity.
+    + rewrite updv_other by congruence. apply (Hag k Hk Hne).
+  - intros a k Ha Hk. rewrite copy_col_spec, (proj2 (Nat.ltb_lt _ _) Ha). cbn [andb].
+    destruct (Nat.eqb_spec k (fst r)) as [->|Hne].
+    + rewrite Htj. ring.
+    + destruct (Hag k Hk Hne) as (_ & HU & _). rewrite HU by assumption. ring.
+  - intros a k Ha Hk. rewrite copy_col_spec, (proj2 (Nat.ltb_lt _ _) Ha). cbn [andb].
+    destruct (Nat.eqb_spec k (fst r)) as [->|Hne].
+    + rewrite Htj. ring.
+    + destruct (Hag k Hk Hne) as (_ & _ & HV). rewrite HV by assumption. ring.
+Qed.
+
+Lemma shell_pass_rel m n inc (st : @svd_st R) :
+  exists sigma, col_rel m n st (for_up (n - inc) inc (shell_insert ROps m n inc) st) sigma (fun _ => 1).
+Proof.
+  apply (for_up_inv (fun (_ : nat) st1 => exists sigma, col_rel m n st st1 sigma (fun _ => 1))).
+  - exists (fun j => j). apply col_rel_refl.
+  - intros c st1 Hc [sg Hsg].
+    destruct (shell_insert_rel m n inc (inc + c) st1 ltac:(lia)) as [sg' Hsg'].
+    eexists. exact (col_perm_trans _ _ _ _ _ _ _ Hsg Hsg').
+Qed.
+
+Lemma shell_passes_S fuel m n inc (st : @svd_st R) :
+  shell_passes ROps (S fuel) m n inc st =
+  if (inc / 3 <=? 1)%nat then for_up (n - inc / 3) (inc / 3) (shell_insert ROps m n (inc / 3)) st
+  else shell_passes ROps fuel m n (inc / 3) (for_up (n - inc / 3) (inc / 3) (shell_insert ROps m n (inc / 3)) st).
+Proof. reflexivity. Qed.
+
+Lemma shell_passes_rel m n fuel : forall inc (st : @svd_st R),
+  exists sigma, col_rel m n st (shell_passes ROps fuel m n inc st) sigma (fun _ => 1).
+Proof.
+  induction fuel as [|f IH]; intros inc st.
+  - cbn [shell_passes]. exists (fun j => j). apply col_rel_refl.
+  - rewrite shell_passes_S.
+    destruct (shell_pass_rel m n (inc / 3) st) as [sg Hsg].
+    destruct (inc / 3 <=? 1)%nat; [exists sg; exact Hsg|].
+    destruct (IH (inc / 3)%nat (for_up (n - inc / 3) (inc / 3) (shell_insert ROps m n (inc / 3)) st)) as [sg' Hsg'].
+    eexists. exact (col_perm_trans _ _ _ _ _ _ _ Hsg Hsg').
+Qed.
+
+(* (B2) *)
+Theorem svd_sort_rel : forall m n st, exists sigma, col_rel m n st (svd_sort ROps m n st) sigma (fun _ => 1).
+Proof. intros m n st. unfold svd_sort. apply shell_passes_rel. Qed.
+
+(* ---------- a finite sum is invariant under an injective self-map of [0,n) ---------- *)
+Definition lsum (l : list R) : R := fold_right Rplus 0 l.
+Lemma lsum_app l1 l2 : lsum (l1 ++ l2) = lsum l1 + lsum l2.
+Proof. unfold lsum. induction l1 as [|a l1 IH]; cbn; lra. Qed.
+Lemma lsum_perm l l' : Permutation l l' -> lsum l = lsum l'.
+Proof. unfold lsum. induction 1; cbn; lra. Qed.
+Lemma rsum_lsum n f : rsum n f = lsum (map f (seq 0 n)).
+Proof.
+  induction n as [|n IH]; [reflexivity|].
+  rewrite rsum_S, seq_S, map_app, lsum_app, IH. cbn. lra.
+Qed.
+Lemma NoDup_map_inj_on {A B : Type} (g : A -> B) (l : list A) :
+  NoDup l -> (forall a b, In a l -> In b l -> g a = g b -> a = b) -> NoDup (map g l).
+Proof.
+  induction 1 as [|x l Hx Hnd IH]; intros Hinj; cbn; constructor.
+  - intros Hin. apply in_map_iff in Hin. destruct Hin as (y & Hy & Hyl).
+    apply Hinj in Hy; [subst; contradiction|right; exact Hyl|left; reflexivity].
+  - apply IH. intros a b Ha Hb. apply Hinj; right; assumption.
+Qed.
+Lemma perm_of_inj n sigma :
+  (forall j, (j < n)%nat -> (sigma j < n)%nat) ->
+  (forall a b, (a < n)%nat -> (b < n)%nat -> sigma a = sigma b -> a = b) ->
+  Permutation (map sigma (seq 0 n)) (seq 0 n).
+Proof.
+  intros Hr Hinj. apply NoDup_Permutation_bis.
+  - apply NoDup_map_inj_on; [apply seq_NoDup|].
+    intros a b Ha Hb. apply in_seq in Ha, Hb. apply Hinj; lia.
+  - rewrite map_length. apply le_n.
+  - intros x Hx. apply in_map_iff in Hx. destruct Hx as (y & <- & Hy). apply in_seq in Hy.
+    apply in_seq. specialize (Hr y ltac:(lia)). lia.
+Qed.
+Lemma rsum_perm : forall n sigma (f : nat -> R),
+  (forall j, (j < n)%nat -> (sigma j < n)%nat) ->
+  (forall a b, (a < n)%nat -> (b < n)%nat -> sigma a = sigma b -> a = b) ->
+  rsum n (fun j => f (sigma j)) = rsum n f.
+Proof.
+  intros n sigma f Hr Hinj. rewrite !rsum_lsum.
+  rewrite <- (map_map sigma f). apply lsum_perm. apply Permutation_map. apply perm_of_inj; assumption.
+Qed.
+
+(* ---------- consequences of col_rel ---------- *)
+Lemma sign_sq (x : R) : x = 1 \/ x = -1 -> x * x = 1.
+Proof. intros [->| ->]; lra. Qed.
+
+(* U diag(w) V^T is unchanged *)
+Lemma col_rel_product m n st st' sigma e :
+  col_rel m n st st' sigma e ->
+  forall i k, (i < m)%nat -> (k < n)%nat ->
+    rsum n (fun j => sU st' i j * sw st' j * sV st' k j) = rsum n (fun j => sU st i j * sw st j * sV st k j).
+Proof.
+  intros (Hr & Hinj & He & Hw & HU & HV) i k Hi Hk.
+  rewrite <- (rsum_perm n sigma (fun j => sU st i j * sw st j * sV st k j) Hr Hinj).
+  apply rsum_ext. intros j Hj. rewrite Hw, HU, HV by assumption.
+  transitivity ((e j * e j) * (sU st i (sigma j) * sw st (sigma j) * sV st k (sigma j))); [ring|].
+  rewrite (sign_sq _ (He j Hj)). ring.
+Qed.
+
+Lemma orthocols_perm rows n (M M' : @Mx R) sigma e :
+  (forall j, (j < n)%nat -> (sigma j < n)%nat) ->
+  (forall a b, (a < n)%nat -> (b < n)%nat -> sigma a = sigma b -> a = b) ->
+  (forall j, (j < n)%nat -> e j = 1 \/ e j = -1) ->
+  (forall i j, (i < rows)%nat -> (j < n)%nat -> M' i j = e j * M i (sigma j)) ->
+  orthocols rows n M -> orthocols rows n M'.
+Proof.
+  intros Hr Hinj He HM Ho a b Ha Hb.
+  rewrite (rsum_ext rows _ (fun i => (e a * e b) * (M i (sigma a) * M i (sigma b)))).
+  2:{ intros i Hi. rewrite !HM by assumption. ring. }
+  rewrite rsum_scal. rewrite Ho by auto.
+  destruct (Nat.eqb_spec a b) as [->|Hne].
+  - rewrite Nat.eqb_refl. rewrite (sign_sq _ (He b Hb)). ring.
+  - destruct (Nat.eqb_spec (sigma a) (sigma b)) as [Heq|_]; [|ring].
+    apply Hinj in Heq; [contradiction|assumption|assumption].
+Qed.
+
+Lemma svd_post_rel m n st : exists sigma e, col_rel m n st (svd_post ROps m n st) sigma e.
+Proof.
+  unfold svd_post. destruct (svd_sort_rel m n st) as [sg Hsg].
+  destruct (svd_signs_rel m n (svd_sort ROps m n st)) as [e He].
+  eexists. eexists. exact (col_rel_trans _ _ _ _ _ _ _ _ _ Hsg He).
+Qed.
+
+(* B4 without the sortedness clause *)
+Theorem svd_post_invariant_partial : forall m n st, let st' := svd_post ROps m n st in
+  (exists sigma e, col_rel m n st st' sigma e) /\
+  (forall i k, (i < m)%nat -> (k < n)%nat ->
+     rsum n (fun j => sU st' i j * sw st' j * sV st' k j) = rsum n (fun j => sU st i j * sw st j * sV st k j)) /\
+  ((forall j, (j < n)%nat -> 0 <= sw st j) -> forall j, (j < n)%nat -> 0 <= sw st' j) /\
+  (orthocols m n (sU st) -> orthocols m n (sU st')) /\ (orthocols n n (sV st) -> orthocols n n (sV st')).
+Proof.
+  intros m n st st'. destruct (svd_post_rel m n st) as (sg & e & Hrel). fold st' in Hrel.
+  split; [exists sg, e; exact Hrel|].
+  split; [exact (col_rel_product _ _ _ _ _ _ Hrel)|].
+  destruct Hrel as (Hr & Hinj & He & Hw & HU & HV).
+  split; [|split].
+  - intros Hpos j Hj. rewrite Hw by assumption. apply Hpos. auto.
+  - apply (orthocols_perm m n _ _ sg e); assumption.
+  - apply (orthocols_perm n n _ _ sg e); assumption.
+Qed.
+
+(* ---------- the pass with increment 1 is a straight insertion sort ---------- *)
+(* state of the shifting loop for increment 1: w0 is the vector before the insertion of index i,
+   j the current hole *)
+Definition shift1_inv (w0 : nat -> R) (swv : R) (i j : nat) (st : @svd_st R) : Prop :=
+  (j <= i)%nat /\
+  (forall k, (k < j)%nat -> sw st k = w0 k) /\
+  (forall k, (j < k <= i)%nat -> sw st k = w0 (k - 1)%nat) /\
+  (forall k, (i < k)%nat -> sw st k = w0 k) /\
+  (forall k, (j <= k < i)%nat -> w0 k < swv).
+
+Lemma shell_shift1_spec m n (w0 : nat -> R) swv i :
+  forall fuel j st, (j < fuel)%nat -> (1 <= j)%nat -> shift1_inv w0 swv i j st ->
+    let r := shell_shift ROps fuel m n 1 swv j st in
+    shift1_inv w0 swv i (fst r) (snd r) /\ (fst r = 0%nat \/ swv <= w0 (fst r - 1)%nat).
+Proof.
+  induction fuel as [|f IH]; intros j st Hf Hj1 Hinv; [lia|].
+  cbv zeta. rewrite shell_shift_S.
+  destruct Hinv as (Hji & Hlo & Hmid & Hhi & Hlt).
+  assert (Hread : sw st (j - 1)%nat = w0 (j - 1)%nat) by (apply Hlo; lia).
+  destruct (Rltb (sw st (j - 1)%nat) swv) eqn:Hcmp.
+  - apply Rltb_true in Hcmp. rewrite Hread in Hcmp. cbv zeta.
+    set (st1 := mkSVD _ _ _ _).
+    assert (Hinv1 : shift1_inv w0 swv i (j - 1)%nat st1).
+    { unfold shift1_inv, st1. cbn [sw]. split; [lia|]. split; [|split; [|split]].
+      - intros k Hk. rewrite updv_other by lia. apply Hlo. lia.
+      - intros k Hk. destruct (Nat.eq_dec k j) as [->|Hne].
+        + rewrite updv_same. exact Hread.
+        + rewrite updv_other by congruence. apply Hmid. lia.
+      - intros k Hk. rewrite updv_other by lia. apply Hhi. lia.
+      - intros k Hk. destruct (Nat.eq_dec k (j - 1)%nat) as [->|Hne]; [exact Hcmp|]. apply Hlt. lia. }
+    destruct (Nat.ltb_spec (j - 1) 1) as [Hlt1|Hge1].
+    + cbn [fst snd]. split; [exact Hinv1|]. left. lia.
+    + apply (IH (j - 1)%nat st1); [lia|lia|exact Hinv1].
+  - apply Rltb_false in Hcmp. rewrite Hread in Hcmp. cbn [fst snd].
+    split; [|right; exact Hcmp]. unfold shift1_inv. auto.
+Qed.
+
+(* the values after inserting index i >= 1 with increment 1 *)
+Lemma shell_insert1_spec m n i (st : @svd_st R) :
+  (1 <= i)%nat ->
+  let w := sw st in let w' := sw (shell_insert ROps m n 1 i st) in
+  exists j, (j <= i)%nat /\
+    (forall k, (k < j)%nat -> w' k = w k) /\ w' j = w i /\
+    (forall k, (j < k <= i)%nat -> w' k = w (k - 1)%nat) /\
+    (forall k, (i < k)%nat -> w' k = w k) /\
+    (forall k, (j <= k < i)%nat -> w k < w i) /\
+    (j = 0%nat \/ w i <= w (j - 1)%nat).
+Proof.
+  intros Hi w w'. subst w w'. rewrite shell_insert_eq. cbv zeta. cbn [sw].
+  destruct (shell_shift1_spec m n (sw st) (sw st i) i (S i) i st ltac:(lia) Hi) as [Hinv Hstop].
+  { unfold shift1_inv. split; [lia|]. split; [auto|]. split; [intros; lia|]. split; [auto|]. intros; lia. }
+  cbv zeta in Hinv, Hstop.
+  set (r := shell_shift ROps (S i) m n 1 (sw st i) i st) in *.
+  destruct Hinv as (Hji & Hlo & Hmid & Hhi & Hlt).
+  exists (fst r). split; [exact Hji|]. split; [|split; [|split; [|split; [|split]]]].
+  - intros k Hk. rewrite updv_other by lia. auto.
+  - apply updv_same.
+  - intros k Hk. rewrite updv_other by lia. auto.
+  - intros k Hk. rewrite updv_other by lia. auto.
+  - exact Hlt.
+  - exact Hstop.
+Qed.
+
+Definition sorted_upto (c : nat) (w : nat -> R) : Prop :=
+  forall a b, (a <= b)%nat -> (b <= c)%nat -> w b <= w a.
+
+Lemma shell_insert1_sorted m n i (st : @svd_st R) :
+  (1 <= i)%nat -> sorted_upto (i - 1) (sw st) -> sorted_upto i (sw (shell_insert ROps m n 1 i st)).
+Proof.
+  intros Hi Hs.
+  destruct (shell_insert1_spec m n i st Hi) as (j & Hji & Hlo & Hat & Hmid & _ & Hlt & Hstop).
+  cbv zeta in *. set (w := sw st) in *. set (w' := sw (shell_insert ROps m n 1 i st)) in *.
+  intros a b Hab Hb.
+  destruct (lt_eq_lt_dec b j) as [[Hbj|Hbj]|Hbj].
+  - (* a <= b < j *) rewrite (Hlo b), (Hlo a) by lia. apply Hs; lia.
+  - (* b = j *) subst b. rewrite Hat.
+    destruct (Nat.eq_dec a j) as [->|Hne]; [rewrite Hat; apply Rle_refl|].
+    rewrite (Hlo a) by lia. destruct Hstop as [->|Hstop]; [lia|].
+    apply Rle_trans with (w (j - 1)%nat); [exact Hstop|]. apply Hs; lia.
+  - (* j < b *) rewrite (Hmid b) by lia.
+    destruct (lt_eq_lt_dec a j) as [[Haj|Haj]|Haj].
+    + rewrite (Hlo a) by lia. apply Hs; lia.
+    + subst a. rewrite Hat. apply Rlt_le. apply Hlt. lia.
+    + rewrite (Hmid a) by lia. apply Hs; lia.
+Qed.
+
+Theorem insertion_pass_sorted : forall m n (st : @svd_st R),
+  let st' := for_up (n - 1) 1 (shell_insert ROps m n 1) st in
+  forall a b, (a <= b)%nat -> (b < n)%nat -> sw st' b <= sw st' a.
+Proof.
+  intros m n st st' a b Hab Hb.
+  assert (H : sorted_upto (n - 1) (sw st')).
+  { unfold st'. apply (for_up_inv (fun c st1 => sorted_upto c (sw st1))).
+    - intros x y Hxy Hy. replace y with 0%nat by lia. replace x with 0%nat by lia. apply Rle_refl.
+    - intros c st1 Hc Hs. replace (S c) with (1 + c)%nat by lia.
+      apply shell_insert1_sorted; [lia|]. replace (1 + c - 1)%nat with c by lia. exact Hs. }
+  apply H; lia.
+Qed.
+
+(* ---------- the increments: 1, 4, 13, 40, ...; the last pass has increment 1 ---------- *)
+Fixpoint shell_seq (k : nat) : nat := match k with 0 => 1 | S k' => 3 * shell_seq k' + 1 end.
+Lemma shell_seq_S k : shell_seq (S k) = (3 * shell_seq k + 1)%nat.
+Proof. reflexivity. Qed.
+Lemma shell_seq_pos k : (1 <= shell_seq k)%nat.
+Proof. induction k as [|k IH]; [cbn; lia|]. rewrite shell_seq_S. lia. Qed.
+Lemma shell_seq_div k : (shell_seq (S k) / 3 = shell_seq k)%nat.
+Proof. rewrite shell_seq_S. symmetry. apply (Nat.div_unique _ 3 _ 1); lia. Qed.
+
+Lemma shell_inc0_S fuel inc n :
+  shell_inc0 (S fuel) inc n = if (n <? 3 * inc + 1)%nat then (3 * inc + 1)%nat else shell_inc0 fuel (3 * inc + 1) n.
+Proof. reflexivity. Qed.
+
+(* the initial increment is a member of the sequence whose index is at most the fuel *)
+Lemma shell_inc0_seq n : forall fuel k,
+  exists k', (k <= k' <= k + fuel)%nat /\ ((0 < fuel)%nat -> (k < k')%nat) /\
+             shell_inc0 fuel (shell_seq k) n = shell_seq k'.
+Proof.
+  induction fuel as [|f IH]; intros k.
+  - exists k. cbn [shell_inc0]. repeat split; lia.
+  - rewrite shell_inc0_S. rewrite <- shell_seq_S.
+    destruct (n <? shell_seq (S k))%nat.
+    + exists (S k). repeat split; lia.
+    + destruct (IH (S k)) as (k' & Hk' & _ & Heq). exists k'. repeat split; lia.
+Qed.
+
+(* the fuel S n of the increment loop is not exhausted: the loop leaves through `inc > n` *)
+Lemma shell_inc0_gt : forall fuel inc n, (n < inc + fuel)%nat -> (n < shell_inc0 fuel inc n)%nat.
+Proof.
+  induction fuel as [|f IH]; intros inc n H.
+  - cbn [shell_inc0]. lia.
+  - rewrite shell_inc0_S. destruct (Nat.ltb_spec n (3 * inc + 1)) as [Hlt|Hge]; [exact Hlt|].
+    apply IH. lia.
+Qed.
+Corollary shell_inc0_start_gt n : (n < shell_inc0 (S n) 1 n)%nat.
+Proof. apply shell_inc0_gt. lia. Qed.
+
+(* with at least k units of fuel, the passes started from the k-th increment end with the pass for
+   increment 1: the fuel is not exhausted *)
+Lemma shell_passes_last m n : forall fuel k (st : @svd_st R),
+  (1 <= k <= fuel)%nat ->
+  exists st0, shell_passes ROps fuel m n (shell_seq k) st = for_up (n - 1) 1 (shell_insert ROps m n 1) st0.
+Proof.
+  induction fuel as [|f IH]; intros k st Hk; [lia|].
+  destruct k as [|k0]; [lia|].
+  rewrite shell_passes_S, shell_seq_div.
+  destruct k0 as [|k1].
+  - cbn [shell_seq]. cbn [Nat.leb]. exists st. reflexivity.
+  - assert (H4 : (4 <= shell_seq (S k1))%nat) by (rewrite shell_seq_S; pose proof (shell_seq_pos k1); lia).
+    destruct (Nat.leb_spec (shell_seq (S k1)) 1) as [Hle|_]; [lia|].
+    apply IH. lia.
+Qed.
+
+Lemma svd_sort_last_pass m n (st : @svd_st R) :
+  exists st0, svd_sort ROps m n st = for_up (n - 1) 1 (shell_insert ROps m n 1) st0.
+Proof.
+  unfold svd_sort.
+  destruct (shell_inc0_seq n (S n) 0) as (k' & Hk' & Hpos & Heq).
+  change (shell_seq 0) with 1%nat in Heq. rewrite Heq.
+  apply shell_passes_last. specialize (Hpos ltac:(lia)). lia.
+Qed.
+
+(* (B3) *)
+Theorem svd_sort_sorted : forall m n st, let st' := svd_sort ROps m n st in
+  forall a b, (a <= b)%nat -> (b < n)%nat -> sw st' b <= sw st' a.
+Proof.
+  intros m n st st' a b Hab Hb. unfold st'.
+  destruct (svd_sort_last_pass m n st) as [st0 ->].
+  apply insertion_pass_sorted; assumption.
+Qed.
+
+(* (B4) *)
+Theorem svd_post_invariant : forall m n st, let st' := svd_post ROps m n st in
+  (exists sigma e, col_rel m n st st' sigma e) /\
+  (forall i k, (i < m)%nat -> (k < n)%nat ->
+     rsum n (fun j => sU st' i j * sw st' j * sV st' k j) = rsum n (fun j => sU st i j * sw st j * sV st k j)) /\
+  (forall a b, (a <= b)%nat -> (b < n)%nat -> sw st' b <= sw st' a) /\
+  ((forall j, (j < n)%nat -> 0 <= sw st j) -> forall j, (j < n)%nat -> 0 <= sw st' j) /\
+  (orthocols m n (sU st) -> orthocols m n (sU st')) /\ (orthocols n n (sV st) -> orthocols n n (sV st')).
+Proof.
+  intros m n st st'.
+  destruct (svd_post_invariant_partial m n st) as (H1 & H2 & H4 & H5 & H6). fold st' in H1, H2, H4, H5, H6.
+  split; [exact H1|]. split; [exact H2|]. split; [|split; [exact H4|split; [exact H5|exact H6]]].
+  intros a b Hab Hb. unfold st', svd_post.
+  destruct (svd_signs_rel m n (svd_sort ROps m n st)) as (e & _ & _ & _ & Hw & _ & _).
+  rewrite !Hw by lia. apply svd_sort_sorted; assumption.
+Qed.
+
+(* ---------- sign normalisation leaves a state without negative entries alone ---------- *)
+Lemma count_neg_zero rows k (A : @Mx R) :
+  (forall i, (i < rows)%nat -> 0 <= A i k) -> count_neg ROps rows k A = 0%nat.
+Proof.
+  intros H. unfold count_neg.
+  apply (for_up_inv (fun (_ : nat) (c : nat) => c = 0%nat)); [reflexivity|].
+  intros c s' Hc ->. cbn [oltb o0 ROps]. rewrite (proj2 (Rltb_false _ _)); [reflexivity|].
+  apply H. lia.
+Qed.
+
+Lemma svd_signs_nonneg m n (st : @svd_st R) :
+  (forall i k, (i < m)%nat -> (k < n)%nat -> 0 <= sU st i k) ->
+  (forall i k, (i < n)%nat -> (k < n)%nat -> 0 <= sV st i k) ->
+  svd_signs ROps m n st = st.
+Proof.
+  intros HU HV. unfold svd_signs.
+  apply (for_up_inv (fun (_ : nat) st1 => st1 = st)); [reflexivity|].
+  intros c s' Hc ->.
+  rewrite !count_neg_zero by (intros; first [apply HU | apply HV]; lia).
+  destruct (Nat.ltb_spec (m + n) (2 * (0 + 0))); [lia|reflexivity].
+Qed.
+
+(* ====================================================================== *)
+(* Examples                                                                *)
+(* ====================================================================== *)
+
+(* (A5) the hypotheses of svd_solve_lsq are satisfiable: U = V = I (2 x 2), s = (2, 0) (exact rank
+   deficiency) and s = (2, 1) (full rank), for every machine epsilon in [0, 1/4] *)
+Lemma identity_orthocols2 : orthocols 2 2 (identity ROps).
+Proof.
+  intros a b Ha Hb. unfold rsum, identity.
+  destruct a as [|[|a]]; [| |lia]; (destruct b as [|[|b]]; [| |lia]); cbn; lra.
+Qed.
+Lemma identity_orthorows2 : orthorows 2 (identity ROps).
+Proof.
+  intros a b Ha Hb. unfold rsum, identity.
+  destruct a as [|[|a]]; [| |lia]; (destruct b as [|[|b]]; [| |lia]); cbn; lra.
+Qed.
+Lemma sqrt5_lt_3 : sqrt 5 < 3.
+Proof.
+  replace 3 with (sqrt (3 * 3)) by (apply sqrt_square; lra). apply sqrt_lt_1_alt. lra.
+Qed.
+Lemma svd_tol_22 eps (s : nat -> R) : svd_tol ROps eps 2 2 s = / 2 * sqrt 5 * s 0%nat * eps.
+Proof.
+  unfold svd_tol, half, two, oofnat. cbn [omul odiv oadd osqrt o1 oofZ ROps Nat.add Z.of_nat Pos.of_succ_nat Pos.succ].
+  replace (4 + 1) with 5 by lra. unfold Rdiv. rewrite Rmult_1_l. reflexivity.
+Qed.
+
+Example svd_lsq_hyps_rank_deficient : forall eps, 0 <= eps <= / 4 ->
+  let U := identity ROps in let V := identity ROps in
+  let s := fun j : nat => if Nat.eqb j 0 then 2 else 0 in
+  orthocols 2 2 U /\ orthocols 2 2 V /\ orthorows 2 V /\
+  (forall j, (j < 2)%nat -> svd_tol ROps eps 2 2 s < s j \/ s j = 0).
+Proof.
+  intros eps He U V s.
+  split; [apply identity_orthocols2|]. split; [apply identity_orthocols2|]. split; [apply identity_orthorows2|].
+  intros j Hj. rewrite svd_tol_22. pose proof sqrt5_lt_3 as H3. pose proof (sqrt_pos 5) as H0.
+  destruct j as [|[|j]]; [left|right|lia]; unfold s; cbn [Nat.eqb]; [nra|reflexivity].
+Qed.
+
+Example svd_lsq_hyps_full_rank : forall eps, 0 <= eps <= / 4 ->
+  let U := identity ROps in let V := identity ROps in
+  let s := fun j : nat => if Nat.eqb j 0 then 2 else 1 in
+  orthocols 2 2 U /\ orthocols 2 2 V /\ orthorows 2 V /\
+  (forall j, (j < 2)%nat -> svd_tol ROps eps 2 2 s < s j \/ s j = 0).
+Proof.
+  intros eps He U V s.
+  split; [apply identity_orthocols2|]. split; [apply identity_orthocols2|]. split; [apply identity_orthorows2|].
+  intros j Hj. rewrite svd_tol_22. pose proof sqrt5_lt_3 as H3. pose proof (sqrt_pos 5) as H0.
+  left. destruct j as [|[|j]]; [| |lia]; unfold s; cbn [Nat.eqb]; nra.
+Qed.
+
+(* hence, e.g., the normal equations for A = diag(2, 0) and any right-hand side *)
+Example svd_lsq_rank_deficient_instance : forall eps p (b : @Mx R), 0 <= eps <= / 4 ->
+  let s := fun j : nat => if Nat.eqb j 0 then 2 else 0 in
+  let A := svd_A 2 (identity ROps) s (identity ROps) in
+  let X := svd_solve ROps eps 2 2 p (identity ROps) s (identity ROps) b in
+  forall c k, (c < 2)%nat -> (k < p)%nat ->
+    rsum 2 (fun i => A i c * (rsum 2 (fun t => A i t * X t k) - b i k)) = 0.
+Proof.
+  intros eps p b He s A X.
+  destruct (svd_lsq_hyps_rank_deficient eps He) as (H1 & H2 & H3 & H4).
+  exact (svd_solve_lsq eps 2 2 p (identity ROps) s (identity ROps) b H1 H2 H3 H4).
+Qed.
+
+(* (B5) w = (1, 2), U = V = I: the two columns are exchanged *)
+Definition ex_st : @svd_st R :=
+  mkSVD (identity ROps) (identity ROps) (fun j => if Nat.eqb j 0 then 1 else 2) (fun _ => 0).
+
+Lemma ex_sort_eq :
+  svd_sort ROps 2 2 ex_st =
+  mkSVD (copy_col 2 (copy_col 2 (identity ROps) 1 (fun k => identity ROps k 0%nat)) 0 (fun k => identity ROps k 1%nat))
+        (copy_col 2 (copy_col 2 (identity ROps) 1 (fun k => identity ROps k 0%nat)) 0 (fun k => identity ROps k 1%nat))
+        (updv (updv (fun j => if Nat.eqb j 0 then 1 else 2) 1 1) 0 2) (fun _ => 0).
+Proof.
+  unfold svd_sort. change (shell_inc0 3 1 2) with 4%nat. rewrite shell_passes_S.
+  change (4 / 3)%nat with 1%nat. cbn [Nat.leb Nat.sub for_up Nat.add].
+  rewrite shell_insert_eq. rewrite shell_shift_S.
+  cbn [ex_st sw Nat.sub Nat.eqb].
+  rewrite (proj2 (Rltb_true 1 2)) by lra.
+  cbn [Nat.ltb Nat.leb fst snd sU sV sw srv1]. reflexivity.
+Qed.
+
+Example svd_post_example :
+  let st' := svd_post ROps 2 2 ex_st in
+  sw st' 0%nat = 2 /\ sw st' 1%nat = 1 /\
+  (forall i j, (i < 2)%nat -> (j < 2)%nat -> sU st' i j = identity ROps i (1 - j)%nat) /\
+  (forall i j, (i < 2)%nat -> (j < 2)%nat -> sV st' i j = identity ROps i (1 - j)%nat).
+Proof.
+  cbv zeta. unfold svd_post. rewrite ex_sort_eq.
+  rewrite svd_signs_nonneg.
+  - cbn [sw sU sV]. split; [reflexivity|]. split; [reflexivity|].
+    split; intros i j Hi Hj; (destruct i as [|[|i]]; [| |lia]); (destruct j as [|[|j]]; [| |lia]); reflexivity.
+  - cbn [sU]. intros i j Hi Hj.
+    (destruct i as [|[|i]]; [| |lia]); (destruct j as [|[|j]]; [| |lia]); cbn; lra.
+  - cbn [sV]. intros i j Hi Hj.
+    (destruct i as [|[|i]]; [| |lia]); (destruct j as [|[|j]]; [| |lia]); cbn; lra.
+Qed.
